@@ -6,11 +6,12 @@ Text form. What `parse_gcov` does with one line depends on the line only, not on
 before: `classify` names it (`Ev`), `applyEv` performs it, `procStripped_eq`
 (Lemmas/TextCostGcov.lean) shows that this is `procStripped`. `Cost` counts what the Rust loop does:
 * `reads`  – bytes handed over by `read_until` (every byte of the file once, until the function
-             returns); `remove_newline`, the `splitn` calls, the key comparison and the `parse` calls
-             are each one pass over (a part of) that line;
+             returns); `remove_newline`, `from_utf8_lossy` (since /repo 7f9b2b3), the `splitn` calls,
+             the key comparison and the `parse` calls are each one pass over (a part of) that line;
 * `lines`  – iterations of the `loop`;
 * `mapOps` – `FxHashMap::insert` / `BTreeMap::insert` / `BTreeMap::entry` calls (at most one per line);
-* `copied` – bytes copied by `to_owned` (file and function names);
+* `copied` – bytes copied by `to_owned` (file and function names, pieces of the lossily decoded
+             line: at most three bytes per byte read);
 * `pushed` – `Vec<bool>` slots written (one per `branch:` line: `push`, or `vec![taken; 1]`).
 
 JSON form. The reader is serde_json's streaming deserializer driven by the derived `Deserialize`
